@@ -195,6 +195,14 @@ Theorem C09_chains_distinct : forall ops st,
 Proof. exact chains_distinct_lemma. Qed.
 Print Assumptions C09_chains_distinct.
 
+(* The premise [run ops = Some st] holds for every history whose router references exist,
+   that registers no handler twice and uses pairwise distinct plugin names. *)
+Theorem C09_history_never_exits : forall ops,
+  refs_ok 1 [] ops = true -> NoDup (map p_name (history_plugins ops)) ->
+  exists st, run ops = Some st.
+Proof. exact run_total. Qed.
+Print Assumptions C09_history_never_exits.
+
 (* Non-vacuity: histories that run, with the repaired lists; a refusing hook. *)
 Example C09_repaired_on_witnesses :
   (exists st, run witness_stale = Some st /\ handler_flats st = [(7%N, [1%N; 2%N; 3%N])]) /\
